@@ -50,8 +50,8 @@ int verb(string arg) {
   if (GONE) battery();
   return (s >> 24) & 1;
 }
-void heart_beat() { hookpoint(5); L->add(({ "hb", id })); }
-void co() { hookpoint(6); L->add(({ "co", id })); }
+void heart_beat() { int s = hookpoint(5); L->add(({ "hb", id })); L->script(id, 5, s); if (GONE) battery(); }
+void co() { int s = hookpoint(6); L->add(({ "co", id })); L->script(id, 6, s); if (GONE) battery(); }
 
 void raw_move(object dest) { move_object(dest); if (GONE) battery(); }
 void raw_living(string n) { enable_commands(); set_living_name(n); }
